@@ -1304,7 +1304,7 @@ func main() {
 			f.Replay = abs
 		}
 	}
-	base := "/verif/.work/c13"
+	base := lib.Root() + "/.work/c13"
 	if err := os.MkdirAll(base, 0o755); err != nil {
 		lib.Fatal("%v", err)
 	}
